@@ -3,6 +3,7 @@ package main
 import (
 	"fmt"
 	"go/token"
+	"strings"
 
 	"golang.org/x/tools/go/ssa"
 )
@@ -183,6 +184,8 @@ func (m *Models) emptyEvent() Event {
 type a4opts struct {
 	forwardOnly bool // the event must follow the site
 	keyBySite   bool // one obligation per site (contexts listed in the detail) instead of per (context, site)
+	keyByFn     bool // one violated obligation per function that contains uncovered sites
+	pruneNF     bool // see CoverModel.pruneNotFound
 }
 
 func ruleA4(ruleID, text string, ev func(*Models) Event, sel func(*MutSite) bool, floor int, opt ...a4opts) func(*Ctx) {
@@ -199,7 +202,7 @@ func ruleA4(ruleID, text string, ev func(*Models) Event, sel func(*MutSite) bool
 		if len(mm.errs) > 0 {
 			return
 		}
-		cm := c.M.newCover(ev(c.M))
+		cm := c.M.newCover(ev(c.M), o.pruneNF)
 		cm.forwardOnly = o.forwardOnly
 		bad := map[*MutSite]bool{}
 		seen := map[string]bool{}
@@ -209,13 +212,16 @@ func ruleA4(ruleID, text string, ev func(*Models) Event, sel func(*MutSite) bool
 			if o.keyBySite {
 				key = l.site.key()
 			}
+			if o.keyByFn {
+				key = fnName(l.site.Fn)
+			}
 			if seen[key] {
 				continue
 			}
 			seen[key] = true
 			c.S.Bad(ruleID, key, c.Pos(c.InstrPos(l.site.In)),
 				fmt.Sprintf("%s in %s is not accompanied by the covering event on some path through the critical section of %s%s",
-					l.site.What, fnName(l.site.Fn), fnName(l.at), chainString(l.chain)))
+					strings.TrimSuffix(l.site.What, "#2"), fnName(l.site.Fn), fnName(l.at), chainString(l.chain)))
 		}
 		for _, s := range mm.all {
 			if (sel != nil && !sel(s)) || bad[s] {
@@ -240,7 +246,7 @@ func ruleA4Dirty(c *Ctx) {
 
 func ruleA4Version(c *Ctx) {
 	mm := c.M.Muts()
-	ruleA4("A4-version", textA4Version, (*Models).versionEvent, func(s *MutSite) bool { return s.Field == nil || s.Field != mm.fID }, 40, a4opts{keyBySite: true})(c)
+	ruleA4("A4-version", textA4Version, (*Models).versionEvent, func(s *MutSite) bool { return s.Field == nil || s.Field != mm.fID }, 40, a4opts{keyByFn: true, pruneNF: true})(c)
 }
 
 const textA4Empty = "A4-empty: after every site that can shrink an aggregate (list count decrement, removal from a hash/set dictionary) every path to the end of the critical section passes a branch on that aggregate's count against zero whose empty side removes the key from the keyspace — a list, hash or set never exists empty"
